@@ -1189,9 +1189,11 @@ impl<'a> CompactionIterator<'a> {
 				// not see - so the barrier itself has to survive until the bottom
 				// level (and there, until no snapshot older than it is left).
 				// (A newer barrier makes this one redundant.)
+				// While a reader older than this DELETE is open, the versions below
+				// it stay (see the end of the loop), and so must the DELETE: a
+				// reader that began after it would see them come back.
 				!self.enable_versioning
-					|| newer_barrier_seen
-					|| (self.is_bottom_level
+					|| ((newer_barrier_seen || self.is_bottom_level)
 						&& self.snapshots.first().is_none_or(|&oldest| oldest >= seq_num))
 			} else if older_than_dropped_hard_delete {
 				// A newer hard DELETE erased this version
@@ -1243,10 +1245,14 @@ impl<'a> CompactionIterator<'a> {
 
 			// Update for next iteration (this version becomes the "newer" one)
 			newer_version_visibility = Some(current_visibility);
-			if is_replace {
+			// A barrier erases the versions below it once every open reader sees
+			// it. A reader whose snapshot is older still reads those versions:
+			// until it is gone they stay, masked by the barrier for everyone else.
+			let seen_by_all_readers = self.snapshots.first().is_none_or(|&oldest| oldest >= seq_num);
+			if is_replace && seen_by_all_readers {
 				older_than_replace = true;
 			}
-			if is_hard_delete && should_mark_stale {
+			if is_hard_delete && should_mark_stale && seen_by_all_readers {
 				older_than_dropped_hard_delete = true;
 			}
 			if is_hard_delete || is_replace {
